@@ -101,11 +101,11 @@ class C20(Prop):
     # TODO(defect): assigning a DimArray through the on-disk handle when a dimension is indexed with a scalar raises
     # ValueError (DimArrayOnDisk.write looks every dimension of the variable up in the assigned array's axes, the
     # scalar-indexed ones are not there); the same assignment works in memory.  The form is skipped while this is True.
-    SKIP_DIMARRAY_RHS_SCALAR = True
+    SKIP_DIMARRAY_RHS_SCALAR = False
     # TODO(defect): assigning a DimArray through the on-disk handle with a slice (or nothing) along a dimension that has
     # no coordinate variable raises IndexError (DimArrayOnDisk.write wraps the slice in a list - np.ndim(slice) is 0 -
     # and indexes the default np.arange with it).  Skipped while this is True.
-    SKIP_DIMARRAY_RHS_NOCOORD_SLICE = True
+    SKIP_DIMARRAY_RHS_NOCOORD_SLICE = False
 
     def gen(self, rng, tier):
         n = 900 if tier == "quick" else 15000
